@@ -298,7 +298,7 @@ func runSplit(t *testing.T) {
 	H.SetupRapid("split", H.N(2500, 150000))
 	rapid.Check(t, func(rt *rapid.T) {
 		k := rapid.IntRange(2, 3).Draw(rt, "nentries")
-		g := modgraph.Generate(rt, modgraph.Config{MaxModules: k + rapid.IntRange(1, 4).Draw(rt, "extra"), MultiEntry: k, AllowCycles: rapid.Bool().Draw(rt, "cycles"), AllowDynamic: rapid.Bool().Draw(rt, "dynamic"), MutableLets: true, DeferLive: true})
+		g := modgraph.Generate(rt, modgraph.Config{MaxModules: k + rapid.IntRange(1, 4).Draw(rt, "extra"), MultiEntry: k, AllowCycles: rapid.Bool().Draw(rt, "cycles"), AllowDynamic: rapid.Bool().Draw(rt, "dynamic"), MutableLets: true, DeferLive: true, CollidingLocals: rapid.Bool().Draw(rt, "colliding")})
 		files := g.Files()
 		var entries []string
 		for i := 0; i < k; i++ {
